@@ -1253,3 +1253,83 @@ mod tests {
         Ok(())
     }
 }
+
+/// Verification access (feature `verif-hooks` only): thin forwards to crate-private items.
+#[cfg(feature = "verif-hooks")]
+pub(crate) mod verif_access {
+    use super::{reportgen::HttpsProbeReport, *};
+
+    /// Feeds one HTTPS probe report into [`Report::update`].
+    pub(crate) fn report_update_https(r: &mut Report, relay: RelayUrl, latency: Duration) {
+        r.update(&ProbeReport::Https(HttpsProbeReport { relay, latency }));
+    }
+
+    /// Feeds one QAD probe report (IPv4 or IPv6 probe) into [`Report::update`].
+    pub(crate) fn report_update_qad(
+        r: &mut Report,
+        v6_probe: bool,
+        relay: RelayUrl,
+        latency: Duration,
+        addr: SocketAddr,
+    ) {
+        let q = QadProbeReport {
+            relay,
+            latency,
+            addr,
+        };
+        if v6_probe {
+            r.update(&ProbeReport::QadIpv6(q));
+        } else {
+            r.update(&ProbeReport::QadIpv4(q));
+        }
+    }
+
+    pub(crate) fn latencies_update(
+        l: &mut RelayLatencies,
+        url: RelayUrl,
+        latency: Duration,
+        probe: Probe,
+    ) {
+        l.update_relay(url, latency, probe);
+    }
+
+    pub(crate) fn latencies_merge(l: &mut RelayLatencies, other: &RelayLatencies) {
+        l.merge(other);
+    }
+
+    pub(crate) fn latencies_get(l: &RelayLatencies, url: &RelayUrl) -> Option<Duration> {
+        l.get(url)
+    }
+
+    pub(crate) fn latencies_is_empty(l: &RelayLatencies) -> bool {
+        l.is_empty()
+    }
+
+    /// A net-report [`Client`] used only for its report history.
+    #[derive(Debug)]
+    pub(crate) struct History(Client);
+
+    impl History {
+        pub(crate) fn new(dns_resolver: DnsResolver, tls_config: rustls::ClientConfig) -> Self {
+            Self(Client::new(
+                dns_resolver,
+                RelayMap::empty(),
+                Options::new(tls_config),
+                Default::default(),
+            ))
+        }
+
+        pub(crate) fn add(&mut self, r: &mut Report) {
+            self.0.add_report_history_and_set_preferred_relay(r);
+        }
+
+        pub(crate) fn prev_len(&self) -> usize {
+            self.0.reports.prev.len()
+        }
+
+        /// What `get_report` does to the history before a full report.
+        pub(crate) fn forget_last(&mut self) {
+            self.0.reports.last = None;
+        }
+    }
+}
